@@ -6,10 +6,15 @@ from harness.checks import c13
 
 ID = "C14"
 RULE = (
-    "the reconciliations of C13 (bounded-exhaustive up to 3/3, thorough 4/3 and 3/4, sampled inside 5/5, "
-    "random up to 10 object leaves), node sizes dyadic in 1..100 per branch index (with extreme aspect "
-    "ratios over-sampled), the five layout parameters of DrawParams drawn from positive dyadics "
-    "(0.25 .. 64, defaults over-sampled) and the drawing-only parameters perturbed as well; both "
+    "the reconciliations of C13 (4/4 exhaustive in the thorough tier, 5/5 sampled: quick tier "
+    "bounded-exhaustive up to 3 object leaves / 3 species leaves; thorough tier and deep search EVERY binary "
+    "input with <= 4 object leaves x <= 4 species leaves (8,193) and EVERY valid reconciliation of each "
+    "(263,903) ONCE: one orientation drawn at random - laid out twice - and, for the mirror clause, the "
+    "opposite orientation with sizes swapped, ONE seeded size function and ONE parameter vector per "
+    "reconciliation, over a pool of worker processes; the rest of the 5/5 scope is sampled, not "
+    "enumerated; random inputs up to 10 object leaves), node sizes dyadic in 1..100 per branch index (with "
+    "extreme aspect ratios over-sampled), the five layout parameters of DrawParams drawn from positive "
+    "dyadics (0.25 .. 64, defaults over-sampled) and the drawing-only parameters perturbed as well; both "
     "orientations.  Non-trivial: at least two species and at least one duplication, transfer or loss."
 )
 TRUSTED = [
@@ -201,9 +206,9 @@ def first_diff(a, b):
     return "?"
 
 
-def gen_cases(ctx):
+def gen_cases(ctx, stats=None):
     rng = ctx.rng
-    for case in c13.gen_cases(ctx, quick_random=150, thorough_random=4000):
+    for case in c13.gen_cases(ctx, quick_random=150, thorough_random=4000, stats=stats, both=False):
         case["params"] = rand_params(rng)
         ex = rand_extra(rng)
         if ex:
@@ -284,6 +289,16 @@ def corpus(ctx, res):
 
 
 def run(ctx, res):
+    if ctx.budget(False, True):  # thorough tier / deep search: C13's whole 4/4 scope, over a process pool
+        import importlib
+
+        stats = c13.Counter()
+        complete = c13.run_pooled(ctx, res, importlib.import_module(__name__), gen_cases(ctx, stats=stats),
+                                  chunk=300)
+        c13.scope_report(ctx, res, stats, complete,
+                         "once: one orientation drawn at random plus, for the mirror clause, the opposite one "
+                         "with sizes swapped; one seeded size function and one parameter vector each")
+        return
     batch = []
     for c in gen_cases(ctx):
         batch.append(c)
@@ -291,7 +306,7 @@ def run(ctx, res):
             check_cases(ctx, res, batch)
             batch = []
     check_cases(ctx, res, batch)
-    res.exhaustive = False
+    c13.scope_report(ctx, res, None, True, "")
 
 
 def replay(ctx, data):
